@@ -60,6 +60,21 @@ def gen_case(g):
             kw["dist"] = g.choice(["uniform", "norm", "custom_bernoulli", "expon"])
             if kw["dist"] in ("uniform", "norm", "expon"):
                 kw["loc"], kw["scale"] = g.choice([0.0, -1.0, 0.5]), g.choice([1.0, 2.0])
+                if g.chance(0.5):
+                    # location and scale from one pool, either one optional, keywords in either order: requests that
+                    # carry the same VALUES under different NAMES must not be confused with one another
+                    pool = [0.5, 2.0, 5.0]
+                    which = g.choice(["loc", "scale", "both", "both_swapped"])
+                    del kw["loc"], kw["scale"]
+                    if which == "loc":
+                        kw["loc"] = g.choice(pool)
+                    elif which == "scale":
+                        kw["scale"] = g.choice(pool)
+                    elif which == "both":
+                        kw["loc"], kw["scale"] = g.sample(pool, 2)
+                    else:
+                        a_, b_ = g.sample(pool, 2)
+                        kw["scale"], kw["loc"] = b_, a_
             else:
                 kw["p"] = g.choice([0.5, 0.3])
                 if g.chance(0.5):
@@ -234,10 +249,15 @@ def check_support(c, raw):
             return "p=0 drew a success (+1)"
     elif name == "random_sparse":
         d = kw["dist"]
-        if d == "uniform" and v.size and (v.min() < kw["loc"] - 1e-6 or v.max() > kw["loc"] + kw["scale"] + 1e-6):
-            return f"values outside loc + [0, scale]: min {v.min()!r} max {v.max()!r}"
-        if d == "expon" and v.size and v.min() < kw["loc"] - 1e-6:
-            return f"exponential values below loc: {v.min()!r}"
+        loc, scale = kw.get("loc", 0.0), kw.get("scale", 1.0)
+        if d == "uniform" and v.size and (v.min() < loc - 1e-6 or v.max() > loc + scale + 1e-6):
+            return f"values outside loc + [0, scale] = [{loc}, {loc + scale}]: min {v.min()!r} max {v.max()!r}"
+        if d == "expon" and v.size and v.min() < loc - 1e-6:
+            return f"exponential values below loc={loc}: {v.min()!r}"
+        if d == "norm" and v.size >= 30:
+            # 30+ normal draws: the sample mean is within 6 sigma/sqrt(n) of loc and no value is 9 sigma away
+            if abs(float(np.mean(v)) - loc) > 6 * scale / np.sqrt(v.size) + 1e-6 or np.max(np.abs(v - loc)) > 9 * scale:
+                return f"values are not draws of N(loc={loc}, scale={scale}): mean {float(np.mean(v))!r}, max deviation {float(np.max(np.abs(v - loc)))!r} over {v.size} draws"
         if d == "custom_bernoulli":
             val = np.dtype(kw["dtype"]).type(kw.get("value", 1.0))
             if not np.all(np.isin(v, [val, -val])):
